@@ -996,7 +996,22 @@ impl Checker<'_> {
     }
 
     /// C12 for one journal and the live sets the real server computed.
+    /// The prune checks on the journal as written and on every variant of it in which two
+    /// cancel (or two abort) records of different jobs are one batched record (both id orders):
+    /// the statement quantifies over batched records spanning live and completed jobs, the
+    /// server of this version writes one record per job.
     pub fn check_prune(&mut self, dir: &Path, records: &[Event], live_jobs: &[u32], live_workers: &[u32], continuation: &[Event]) {
+        self.check_prune_one(dir, records, live_jobs, live_workers, continuation);
+        for variant in merged_batch_variants(records) {
+            let n0 = self.found.len();
+            self.check_prune_one(dir, &variant, live_jobs, live_workers, continuation);
+            for f in self.found[n0..].iter_mut() {
+                f.site = format!("{} [cancel/abort records of two jobs merged into one]", f.site);
+            }
+        }
+    }
+
+    fn check_prune_one(&mut self, dir: &Path, records: &[Event], live_jobs: &[u32], live_workers: &[u32], continuation: &[Event]) {
         let tags: Vec<String> = records.iter().map(|e| payload_tag(&e.payload)).collect();
         let case = json!({"prune": true, "live_jobs": live_jobs, "live_workers": live_workers, "tags": tags});
         let orig = dir.join("orig.journal");
@@ -1239,6 +1254,92 @@ fn tag_kind(p: &EventPayload) -> &'static str {
         EventPayload::ServerStop => "ServerStop",
         EventPayload::TaskNotify(_) => "TaskNotify",
     }
+}
+
+/// Jobs a record is about (`None` = not about a particular job).
+fn record_jobs(p: &EventPayload) -> Option<Vec<u32>> {
+    Some(match p {
+        EventPayload::Submit { job_id, .. } | EventPayload::JobCancel { job_id, .. } => vec![job_id.as_num()],
+        EventPayload::JobCompleted(j) | EventPayload::JobClose(j) | EventPayload::JobIdle(j) => vec![j.as_num()],
+        EventPayload::JobOpen(j, _) => vec![j.as_num()],
+        EventPayload::TaskStarted { task_id, .. }
+        | EventPayload::TaskFinished { task_id }
+        | EventPayload::TaskFailed { task_id, .. } => vec![task_id.job_id().as_num()],
+        EventPayload::TasksCanceled { task_ids } | EventPayload::TasksAborted { task_ids } => {
+            let mut v: Vec<u32> = task_ids.iter().map(|t| t.job_id().as_num()).collect();
+            v.sort_unstable();
+            v.dedup();
+            v
+        }
+        EventPayload::TaskNotify(_) => return None,
+        _ => vec![],
+    })
+}
+
+/// Journals that say the same as `records` with two cancel (or two abort) records of different
+/// jobs batched into one record at the place of the earlier one (ids in both orders). Only where
+/// no record between the two is about the later record's jobs, so the merged journal is a
+/// history the record format allows and means the same.
+fn merged_batch_variants(records: &[Event]) -> Vec<Vec<Event>> {
+    let mut out = Vec::new();
+    let ids_of = |p: &EventPayload| -> Option<(bool, Vec<tako::TaskId>)> {
+        match p {
+            EventPayload::TasksCanceled { task_ids } => Some((true, task_ids.clone())),
+            EventPayload::TasksAborted { task_ids } => Some((false, task_ids.clone())),
+            _ => None,
+        }
+    };
+    for i in 0..records.len() {
+        let Some((kind_i, ids_i)) = ids_of(&records[i].payload) else { continue };
+        let jobs_i = record_jobs(&records[i].payload).unwrap_or_default();
+        for j in i + 1..records.len() {
+            let Some((kind_j, ids_j)) = ids_of(&records[j].payload) else { continue };
+            if kind_i != kind_j {
+                continue;
+            }
+            let jobs_j = record_jobs(&records[j].payload).unwrap_or_default();
+            if jobs_i.iter().any(|x| jobs_j.contains(x)) {
+                continue;
+            }
+            let clean = records[i + 1..j].iter().all(|r| match record_jobs(&r.payload) {
+                None => false,
+                Some(js) => !js.iter().any(|x| jobs_j.contains(x)),
+            });
+            if !clean {
+                continue;
+            }
+            for first_is_i in [true, false] {
+                let mut ids = Vec::new();
+                if first_is_i {
+                    ids.extend(ids_i.iter().copied());
+                    ids.extend(ids_j.iter().copied());
+                } else {
+                    ids.extend(ids_j.iter().copied());
+                    ids.extend(ids_i.iter().copied());
+                }
+                let mut v: Vec<Event> = Vec::with_capacity(records.len() - 1);
+                for (k, r) in records.iter().enumerate() {
+                    if k == j {
+                        continue;
+                    }
+                    if k == i {
+                        v.push(Event {
+                            time: r.time,
+                            payload: if kind_i {
+                                EventPayload::TasksCanceled { task_ids: ids.clone() }
+                            } else {
+                                EventPayload::TasksAborted { task_ids: ids.clone() }
+                            },
+                        });
+                    } else {
+                        v.push(r.clone());
+                    }
+                }
+                out.push(v);
+            }
+        }
+    }
+    out
 }
 
 /// Synthetic autoalloc record sequences appended to a journal (queue ids for C11/C12): the
